@@ -68,7 +68,7 @@ def model_histories(run: Run, tier, seed):
     hists = [(3, json.loads(h)) for h in hs]
     cover = len(hists)
     # 4 labels, bounded depth, exhaustive (check + cover)
-    d4 = 3 if tier == "quick" else 5
+    d4 = 3 if tier == "quick" else 4
     tlc.write_module(wd, "MC_EquivDB", body, cfg(4, d4, "all", "ViewCover"))
     c4 = tlc.require_ok(tlc.run_tlc(wd, "MC_EquivDB", workers=1, timeout=2400), "MC_EquivDB cover4")
     run.add_tlc(c4, "MC_EquivDB transition cover 4 labels depth<=%d" % d4)
@@ -113,17 +113,24 @@ def nontrivial(events) -> bool:
 def run(tier: str, seed: int) -> int:
     run_ = Run("C06", tier, seed)
     hists, cover = model_histories(run_, tier, seed)
-    traces = []
-    for i, (nl, h) in enumerate(hists):
-        ev = replay_history(h, nl)
-        traces.append({"tid": "h%d" % i, "events": ev, "sig": "replayed/labels=%d" % nl})
-        run_.events += len(ev)
-        if nontrivial(ev):
-            run_.nt(json.dumps(h))
-    run_.evaluations = len(traces)
-    run_.sample({"history": hists[len(hists) // 2][1], "trace_tail": traces[len(traces) // 2]["events"][-3:]})
+    # replayed and judged in chunks: the traces (an all-pairs matrix after every step) are large
+    CH = 15000
+    total = 0
+    for lo in range(0, len(hists), CH):
+        traces = []
+        for i, (nl, h) in enumerate(hists[lo:lo + CH]):
+            ev = replay_history(h, nl)
+            traces.append({"tid": "h%d" % (lo + i), "events": ev, "sig": "replayed/labels=%d" % nl})
+            run_.events += len(ev)
+            if nontrivial(ev):
+                run_.nt(json.dumps(h))
+        if lo == 0:
+            run_.sample({"history": hists[len(traces) // 2][1], "trace_tail": traces[len(traces) // 2]["events"][-3:]})
+        total += len(traces)
+        judge(run_, traces, "replayed-%d" % (lo // CH))
+        del traces
+    run_.evaluations = total
     run_.sample({"history": hists[-1][1]})
-    judge(run_, traces, "replayed")
     try:
         from . import search_campaign
     except ImportError:
